@@ -661,6 +661,7 @@ func runC08(c *Ctx) {
 	c08Cmp(c)
 	c08Det(c)
 	c08DetSrc(c)
+	c08DetNumLabels(c)
 	c08Ent(c)
 	c08E2E(c)
 }
